@@ -5,6 +5,7 @@ import GoCrypt.Props.C17
 import GoCrypt.Props.KdfIR
 import GoCrypt.Props.ParseFlow
 import GoCrypt.Props.B64IRNoPanic
+import GoCrypt.Props.KdfIR2
 
 /-!
 # C05 — no input makes an exported function panic or hang
@@ -56,4 +57,11 @@ namespace GoCrypt.C05
 #print axioms GoCrypt.B64IR.decodeString_ir_never_panics
 #print axioms GoCrypt.B64IR.encodeToString_ir_never_panics
 #print axioms GoCrypt.B64IR.decodeQuantum_ir_eq_model
+-- the regenerated Key glue of the remaining schemes returns the model's result (a key or a typed error, never the IR's panic) for every input
+#print axioms GoCrypt.KdfIR2.sunmd5_key_tail_ir_eq_derive
+#print axioms GoCrypt.KdfIR2.desext_key_tail_ir_eq_derive
+#print axioms GoCrypt.KdfIR2.des_key_tail_ir_eq_derive
+#print axioms GoCrypt.KdfIR2.nthash_key_tail_ir_eq_derive
+#print axioms GoCrypt.KdfIR2.nthash_encodePassword_ir_eq_model
+#print axioms GoCrypt.KdfIR2.bcrypt_key_tail_ir_eq_derive
 end GoCrypt.C05
